@@ -9,16 +9,39 @@ import (
 // MemPool is a lake.Pool over in-memory files.
 type MemPool struct {
 	Files [][]byte
+	// Cache makes the pool behave like lake's fspool: ONE reader is kept and handed out again - where it was left -
+	// when the same file is asked for twice in a row (GetReader rewinds it, GetReadSeeker does not)
+	Cache  bool
+	last   int64
+	reader *bytes.Reader
 }
 
 func (m *MemPool) GetSize(i int64) int64 {
 	return int64(len(m.Files[i]))
 }
-func (m *MemPool) GetReader(i int64) (io.Reader, error) { return m.GetReadSeeker(i) }
+func (m *MemPool) GetReader(i int64) (io.Reader, error) {
+	rs, err := m.GetReadSeeker(i)
+	if err != nil {
+		return nil, err
+	}
+	if _, err := rs.Seek(0, io.SeekStart); err != nil {
+		return nil, err
+	}
+	return rs, nil
+}
 func (m *MemPool) GetReadSeeker(i int64) (io.ReadSeeker, error) {
 	if i < 0 || i >= int64(len(m.Files)) {
 		return nil, fmt.Errorf("mempool: no file %d", i)
 	}
-	return bytes.NewReader(m.Files[i]), nil
+	if !m.Cache {
+		return bytes.NewReader(m.Files[i]), nil
+	}
+	if m.reader == nil || m.last != i {
+		m.reader, m.last = bytes.NewReader(m.Files[i]), i
+	}
+	return m.reader, nil
 }
-func (m *MemPool) Close() error { return nil }
+func (m *MemPool) Close() error {
+	m.reader = nil
+	return nil
+}
